@@ -9,7 +9,7 @@
      (built on Proofs/SparseUpsert.v, instantiated at Keccak under the injectivity hypothesis). *)
 From Coq Require Import NArith ZArith List Bool Lia Sorted Arith PeanoNat FMapFacts.
 From Verif Require Import Base.Bytes Base.FastBytes Base.Hash Model.Merkle Model.MerkleSpec Model.TreeStore Model.Contracts
-  Model.L1InfoStore Proofs.Frontier Proofs.Rht Proofs.SparseUpsert Proofs.BitFacts Proofs.ContractProofs Proofs.C01Proofs
+  Model.L1InfoStore Model.L1InfoCases Proofs.Frontier Proofs.Rht Proofs.SparseUpsert Proofs.BitFacts Proofs.ContractProofs
   Proofs.TreeStoreProofs Proofs.TreeStoreCorollaries.
 Import ListNotations.
 Open Scope N_scope.
@@ -1363,4 +1363,90 @@ Proof.
   induction ops as [|o t IH]; intros st H; cbn [hist_ordered hist_ordered_b] in *; [exact I|].
   apply andb_true_iff in H as [H1 H2]. split; [|apply IH; exact H2].
   destruct o; try exact I. apply block_ordered_b_sound. exact H1.
+Qed.
+
+(* ====================================================================================================
+   7. The sparse evaluator of the run-time predicate (L1InfoCases.sroot_ref) is the reference sparse root (MerkleSpec.ssub)
+   ==================================================================================================== *)
+Definition lfm (m : list (N * N)) : nat -> N := fun j => map_get m (N.of_nat j).
+Lemma find_filter_imp {A} (p q : A -> bool) l : (forall e, p e = true -> q e = true) -> find p (filter q l) = find p l.
+Proof.
+  intros H. induction l as [|x l IH]; [reflexivity|]. cbn [filter find]. destruct (q x) eqn:Q; cbn [find].
+  - rewrite IH. reflexivity.
+  - destruct (p x) eqn:P; [rewrite (H x P) in Q; discriminate|exact IH].
+Qed.
+Lemma testbit_range i h k : (2 * k * 2 ^ h <= i < (2 * k + 2) * 2 ^ h)%nat ->
+  Nat.testbit i h = true <-> ((2 * k + 1) * 2 ^ h <= i)%nat.
+Proof.
+  intros Hr. rewrite testbit_div. pose proof (div_pow_bounds i h) as Hb.
+  assert (Hp : (0 < 2 ^ h)%nat) by (apply Nat.neq_0_lt_0, Nat.pow_nonzero; lia).
+  set (q := (i / 2 ^ h)%nat) in *. set (p := (2 ^ h)%nat) in *. clearbody q p.
+  assert (Hq : q = (2 * k)%nat \/ q = (2 * k + 1)%nat) by nia.
+  destruct Hq as [-> | ->].
+  - rewrite Nat.odd_mul. cbn [Nat.odd negb andb]. split; [discriminate|nia].
+  - rewrite Nat.add_1_r, Nat.odd_succ, Nat.even_mul. cbn. split; [nia|reflexivity].
+Qed.
+Lemma lfm_nil : forall j, lfm [] j = 0.
+Proof. reflexivity. Qed.
+Lemma ssub_lfm_nil h k : (h <= HEIGHT)%nat -> ssub nodeN (lfm []) h k = zh h.
+Proof.
+  intros Hh. pose proof (ssub_empty nodeN 0 h k) as Ee. cbv beta in Ee.
+  rewrite (ssub_ext nodeN h k (lfm []) (fun _ => 0) (fun j _ => lfm_nil j)). rewrite Ee. symmetry. apply zh_is_zero.
+  pose proof height_le_32. lia.
+Qed.
+Lemma testbitN_range (x : N) h k : (2 * k * 2 ^ h <= N.to_nat x < (2 * k + 2) * 2 ^ h)%nat ->
+  N.testbit x (N.of_nat h) = true <-> ((2 * k + 1) * 2 ^ h <= N.to_nat x)%nat.
+Proof.
+  intros Hr. rewrite <- (N2Nat.id x) at 1. pose proof (bitN_of_nat (N.to_nat x) h) as E. unfold bitN in E. rewrite E.
+  apply testbit_range. exact Hr.
+Qed.
+Lemma lfm_filter_left m h k j : (2 * k * 2 ^ h <= j < (2 * k + 1) * 2 ^ h)%nat ->
+  lfm (filter (fun e : N * N => negb (N.testbit (fst e) (N.of_nat h))) m) j = lfm m j.
+Proof.
+  intros Hj. unfold lfm, map_get. rewrite find_filter_imp; [reflexivity|].
+  intros e He. apply N.eqb_eq in He. apply negb_true_iff. apply not_true_iff_false. rewrite He. intros Hb.
+  apply (testbitN_range (N.of_nat j) h k) in Hb; rewrite Nat2N.id in *; nia.
+Qed.
+Lemma lfm_filter_right m h k j : ((2 * k + 1) * 2 ^ h <= j < (2 * k + 2) * 2 ^ h)%nat ->
+  lfm (filter (fun e : N * N => N.testbit (fst e) (N.of_nat h)) m) j = lfm m j.
+Proof.
+  intros Hj. unfold lfm, map_get. rewrite find_filter_imp; [reflexivity|].
+  intros e He. apply N.eqb_eq in He. rewrite He.
+  apply (testbitN_range (N.of_nat j) h k); rewrite Nat2N.id; nia.
+Qed.
+Theorem sroot_ref_is_ssub : forall h k m, (h <= HEIGHT)%nat ->
+  (forall e, In e m -> (k * 2 ^ h <= N.to_nat (fst e) < (k + 1) * 2 ^ h)%nat) ->
+  sroot_ref h m = ssub nodeN (lfm m) h k.
+Proof.
+  induction h as [|h IH]; intros k m Hh Hr.
+  - cbn [sroot_ref ssub]. unfold lfm, map_get. destruct m as [|e t]; [reflexivity|]. cbn [find].
+    specialize (Hr e (or_introl eq_refl)). rewrite Nat.pow_0_r in Hr.
+    assert (E : fst e = N.of_nat k) by lia. rewrite E, N.eqb_refl. reflexivity.
+  - destruct m as [|e0 t] eqn:Em.
+    + rewrite ssub_lfm_nil by exact Hh. reflexivity.
+    + assert (Hunf : sroot_ref (S h) m = nodeN (sroot_ref h (filter (fun e : N * N => negb (N.testbit (fst e) (N.of_nat h))) m))
+                                            (sroot_ref h (filter (fun e : N * N => N.testbit (fst e) (N.of_nat h)) m))).
+      { rewrite Em. reflexivity. }
+      rewrite <- Em in *. rewrite Hunf. clear Hunf Em e0 t.
+      assert (Hp : (0 < 2 ^ h)%nat) by (apply Nat.neq_0_lt_0, Nat.pow_nonzero; lia).
+      assert (Hr' : forall e, In e m -> (2 * k * 2 ^ h <= N.to_nat (fst e) < (2 * k + 2) * 2 ^ h)%nat).
+      { intros e He. specialize (Hr e He). cbn [Nat.pow] in Hr. nia. }
+      assert (EL : sroot_ref h (filter (fun e : N * N => negb (N.testbit (fst e) (N.of_nat h))) m) = ssub nodeN (lfm m) h (2 * k)%nat).
+      { rewrite (IH (2 * k)%nat); [|lia|].
+        - apply ssub_ext. intros j Hj. apply (lfm_filter_left m h k j). nia.
+        - intros e He. apply filter_In in He as [He Hb]. apply negb_true_iff in Hb. pose proof (Hr' e He) as Hre.
+          pose proof (testbitN_range (fst e) h k Hre) as Hbe.
+          assert (~ ((2 * k + 1) * 2 ^ h <= N.to_nat (fst e))%nat) by (intros Hc; apply Hbe in Hc; congruence). nia. }
+      assert (ER : sroot_ref h (filter (fun e : N * N => N.testbit (fst e) (N.of_nat h)) m) = ssub nodeN (lfm m) h (2 * k + 1)%nat).
+      { rewrite (IH (2 * k + 1)%nat); [|lia|].
+        - apply ssub_ext. intros j Hj. apply (lfm_filter_right m h k j). nia.
+        - intros e He. apply filter_In in He as [He Hb]. pose proof (Hr' e He) as Hre.
+          apply (testbitN_range (fst e) h k Hre) in Hb. nia. }
+      cbn [ssub]. rewrite EL, ER. reflexivity.
+Qed.
+(* at the root: every map whose keys are uint32 *)
+Corollary sroot_ref_is_sroot m : (forall e, In e m -> fst e <= mask32) ->
+  sroot_ref HEIGHT m = sroot nodeN (lfm m) HEIGHT.
+Proof.
+  intros H. unfold sroot. apply sroot_ref_is_ssub; [lia|]. intros e He. pose proof (u32_lt_pow _ (H e He)). lia.
 Qed.
